@@ -55,4 +55,11 @@ def unary (s : Spec) : Seen :=
     | e => failed (codeOf 2 e) true               -- returned as is; EncodeError makes it Unknown
   | e => failed (codeOf 3 e) false                -- codes.InvalidArgument
 
+/-- the stream handler as the generated server uses it: `Decode` (request message and metadata), and only if that
+    succeeded `Handle` (the endpoint, which gets the stream); (status code, endpoint invoked) -/
+def stream (dec ep : Step) : Int × Bool :=
+  match dec with
+  | .ok => (codeOf 2 ep, true)
+  | e => (codeOf 3 e, false)
+
 end GoaVerif.GrpcHandler
